@@ -255,16 +255,14 @@ func c19MultiReplay(i int, raw json.RawMessage) Result {
 		return Result{Detail: "bad vector: " + err.Error()}
 	}
 	key := string(raw)
+	// outer = multi(inner, last member); inner = multi(member 1) and changes while the outer one is in use
 	mems := make([]*jet.InMemLoader, v.N)
-	var m *multi.Multi
 	for k := range mems {
 		mems[k] = jet.NewInMemLoader()
-		if k == 0 {
-			m = multi.NewLoader(mems[k])
-		} else {
-			m.AddLoaders(mems[k])
-		}
 	}
+	inner := multi.NewLoader(mems[0])
+	m := multi.NewLoader()
+	m.AddLoaders(inner, mems[v.N-1])
 	for k, h := range v.Hist {
 		p := "/" + h.P
 		sig := map[string]interface{}{"loader": "multi-of-inmem", "kind": "history", "op": h.Op}
@@ -275,6 +273,12 @@ func c19MultiReplay(i int, raw json.RawMessage) Result {
 			continue
 		case "delete":
 			mems[h.L-1].Delete(p)
+			continue
+		case "addinner":
+			inner.AddLoaders(mems[h.L-1])
+			continue
+		case "clearinner":
+			inner.ClearLoaders()
 			continue
 		case "exists":
 			got = "no"
